@@ -22,7 +22,7 @@ fi
 cd "$VERIF"
 out=${MATRIX_OUT:-/verif/seeded/MATRIX.tsv}
 echo -e "mutant\ttarget\tcheck\tresult" > $out
-for d in ${MATRIX_ONLY:-seeded/M-* seeded/B?}; do
+for d in ${MATRIX_ONLY:-seeded/M-* seeded/B*}; do
   m=$(basename $d); target=$(python3 -c "import json;print(json.load(open('$d/meta.json')).get('property','benign'))")
   git -C $REPO checkout -q -- . ; git -C $REPO apply $VERIF/$d/patch.diff || { echo -e "$m\t$target\t-\tPATCH-FAILED" >> $out; continue; }
   checks=${MATRIX_CHECKS:-C01 C02 C03 C04 C05 C06 C07 C08 C09 C10 C11 C12 C13 C14 C15 C16 C17 C18 C19 C20}
